@@ -78,7 +78,7 @@ theorem norm_separable (t : Table) (ht : t.wf = true) (r : Red) (hr : r ∈ t) (
     Separable (r.apply comb) := by
   have hp : r.perSample = true := List.all_eq_true.mp ht r hr
   simp only [Red.perSample, Bool.and_eq_true, Bool.not_eq_true', List.all_eq_true, decide_eq_true_eq] at hp
-  obtain ⟨⟨_, hne⟩, hax⟩ := hp
+  obtain ⟨⟨⟨_, hne⟩, hax⟩, _⟩ := hp
   unfold Red.apply
   simp only [hne, Bool.false_eq_true, if_false]
   apply foldl_reduce_separable
